@@ -1039,6 +1039,9 @@ def getattr_(ex, st, v, attr):
     if type(v).__name__ == "RegexVal":
         yield st, BuiltinRef("regex." + attr, bound=v)
         return
+    if type(v).__name__ == "MatchVal":
+        yield st, BuiltinRef("match." + attr, bound=v)
+        return
     if isinstance(v, Opaque):
         yield from opaque_attr(ex, st, v, attr)
         return
@@ -1707,6 +1710,7 @@ def model_int_of_str(ex, st, s):
             yield ex.raise_(st, "ValueError")
         return
     c = strip_term(s.t, "int")
+    axiom(z3.Implies(z3.InRe(s.t, RE_SIGNED), c == s.t))  # a signed numeral has nothing to strip
     axiom(z3.Implies(z3.InRe(c, RE_SIGNED), PY_INT_OK(c)))
     axiom(z3.Implies(z3.InRe(c, RE_DIGITS), PY_INT_VAL(c) == z3.StrToInt(c)))
     for st1, ok in ex.branch(st, _wrap_bool(PY_INT_OK(c))):
